@@ -344,6 +344,16 @@ def _num2(a, b):
     return a, b
 
 
+_PICKLE_REG = {}
+
+
+def _revive(key):
+    try:
+        return _PICKLE_REG[key]
+    except KeyError:
+        raise EncodingError("a symbolic value crossed a process boundary")
+
+
 def _np_nan():
     """NaN as a numpy scalar: keeps numpy's float semantics (nan/0 -> nan) inside object arrays."""
     import numpy as _np
@@ -369,7 +379,10 @@ class Sym:
         return self
 
     def __reduce__(self):
-        raise EncodingError("pickling a symbolic value")
+        # in-process pickling only (the in-process pool of R8 round-trips arguments through pickle,
+        # as multiprocessing does): the copy is the same term.  A real child process cannot revive it.
+        _PICKLE_REG[id(self)] = self
+        return (_revive, (id(self),))
 
 
 class SBool(Sym):
